@@ -175,7 +175,7 @@ func (ex *Exec) handleAppends(h string) string {
 func fsOpen(ex *Exec, st *State, fr *Frame, callee *ssa.Function, args []Val, c *ssa.CallCommon, pos token.Pos) Val {
 	ex.vc.Trust(fsTrust)
 	flag, isConst := constBV(sc(args[1]).T)
-	const oCreate, oTrunc, oAppend = 0x40, 0x200, 0x400
+	const oCreate, oTrunc, oAppend, oExcl = 0x40, 0x200, 0x400, 0x80
 	res := ex.valOrErrResults(st, c.Signature().Results(), "fs").(*Agg)
 	h, errT := sc(res.F[0]).T, sc(res.F[1]).T
 	name := ex.pathLast(sc(args[0]).T)
@@ -192,6 +192,17 @@ func fsOpen(ex *Exec, st *State, fr *Frame, callee *ssa.Function, args []Val, c 
 		ex.ghostBump(st, "$fsWrites")
 	}
 	was := g.exists()
+	if flag&oCreate != 0 && flag&oExcl != 0 {
+		// O_EXCL: creating fails when the file is already there (not an I/O failure)
+		ex.assume(st, implies(was, not(okc)))
+		ex.ghostBumpIf(st, "$ioFail", and(not(okc), not(was)))
+		g.setLength(ite(okc, z64(), g.length()))
+		g.setContent(ite(okc, emptyContent, g.content()))
+		g.setExists(or(was, okc))
+		ex.assume(st, implies(okc, eq(ex.handleName(h), name)))
+		ex.assume(st, implies(okc, ex.handleAppends(h)))
+		return res
+	}
 	if flag&oCreate != 0 {
 		// a created file is empty; an existing one is kept (unless truncated)
 		unkE := ex.vc.Fresh("fexists", SBool)
@@ -470,4 +481,11 @@ func fsOpenRO(ex *Exec, st *State, fr *Frame, callee *ssa.Function, args []Val, 
 	ex.assume(st, implies(app("ErrNotExist", errT), and(not(okc), not(g.exists()))))
 	ex.ghostBumpIf(st, "$ioFail", and(not(okc), g.exists()))
 	return res
+}
+
+// (*os.File).Close: no effect on the ghost files; a failure is an I/O failure.
+func fsClose(ex *Exec, st *State, fr *Frame, callee *ssa.Function, args []Val, c *ssa.CallCommon, pos token.Pos) Val {
+	e := ex.vc.Fresh("closeerr", SRef)
+	ex.ghostBumpIf(st, "$ioFail", not(eq(e, z64())))
+	return Sc{e, SRef}
 }
